@@ -170,13 +170,16 @@ def make_case(rng, b, fam, orient, mode, fractions=(1.0, 0.75, 0.5, 0.25), N=N_D
     coords = np.array(pos, dtype=float) / N + shifts
     traj = Trajectory(species=[Species(species)] * A, coords=coords, lattice=lattice, time_step=1e-15,
                       metadata={'temperature': 300.0})
-    structure = Structure(lattice=lattice, species=[species] * S, coords=np.array(sites) / N, labels=labels)
+    # the reference structure of the sites may come with its own, slightly different cell (e.g. from a CIF):
+    # sites are located by their fractional coordinates in the simulation cell
+    scale = float(rng.choice([1.0, 1.0, 1.04, 0.95, 1.3]))
+    structure = Structure(lattice=Lattice(M * scale), species=[species] * S, coords=np.array(sites) / N, labels=labels)
     thr = [int(math.ceil(r * r * N * N - 1e-9)) for r in radii]
     thr_in = [int(math.ceil(f * f * r * r * N * N - 1e-9)) for r in radii]
     rec = {'b': b, 'G': G, 'N': N, 'R': R, 'sites': sites, 'thr': thr, 'thrIn': thr_in, 'pos': pos,
            'auto': False, 'raised': False, 'tooClose': False,
            'meta': {'family': fam, 'orientation': orient, 'mode': mode, 'inner_fraction': f, 'radius': kw_radius,
-                    'labels': labels, 'nearface': nearface}}
+                    'labels': labels, 'nearface': nearface, 'sites_lattice_scale': scale}}
     return rec, traj, structure, dict(site_radius=kw_radius, site_inner_fraction=f)
 
 
@@ -205,12 +208,15 @@ def make_auto_case(rng, b, fam, orient, close=False, N=N_DEFAULT):
                for a in range(S) for c in range(a + 1, S))
     dmin = math.sqrt(qmin) / N
     T, A = int(rng.integers(6, 12)), int(rng.integers(1, 4))
-    amp = float(rng.choice([0.1, 0.3, 0.8]))
+    # amplitude of the atomic motion: small (radius = 2 x vibration amplitude) or about half the smallest site separation
+    # (radius clamped to dmin/2 - 0.005, atoms straddling the sphere surface)
+    amp = float(rng.choice([0.1, 0.3, 0.8, dmin / 2, dmin / 2, dmin / 2]))
     pos = positions_near(rng, G, N, sites, [amp] * S, T, A)
     coords = np.array(pos, dtype=float) / N
     traj = Trajectory(species=[Species('Li')] * A, coords=coords, lattice=lattice, time_step=1e-15,
                       metadata={'temperature': 300.0})
-    structure = Structure(lattice=lattice, species=['Li'] * S, coords=np.array(sites) / N, labels=['A'] * S)
+    scale = float(rng.choice([1.0, 1.05, 0.96, 1.25]))
+    structure = Structure(lattice=Lattice(M * scale), species=['Li'] * S, coords=np.array(sites) / N, labels=['A'] * S)
     vib = float(TrajectoryMetrics(traj.filter('Li')).vibration_amplitude())
     r = 2 * vib
     too_close = False
@@ -225,7 +231,7 @@ def make_auto_case(rng, b, fam, orient, close=False, N=N_DEFAULT):
     thr = int(math.ceil(v)) if r > 0 else 0
     rec = {'b': b, 'G': G, 'N': N, 'R': R, 'sites': sites, 'thr': [thr] * S, 'thrIn': [thr] * S, 'pos': pos,
            'auto': True, 'raised': False, 'tooClose': bool(too_close),
-           'meta': {'family': fam, 'orientation': orient, 'mode': 'auto', 'vib': vib, 'dmin': dmin, 'radius': r}}
+           'meta': {'family': fam, 'orientation': orient, 'mode': 'auto', 'vib': vib, 'dmin': dmin, 'radius': r, 'sites_lattice_scale': scale}}
     if not margin_ok:
         return None
     try:
